@@ -196,16 +196,29 @@ fn lifecycle_case(dir: &Path, rng: &mut Rng, stats: &mut Counts) -> R<String> {
     let mut desc = format!("lifecycle front={front} workers={workers}");
     let db = open_any(dir, front, workers).map_err(|e| Deviation::new("unexpected-error:open", format!("{e:?}")))?;
     let inner = db.inner();
-    let nks = rng.range(1, 3);
+    // half of the cases reach journal rotation (H4 scale) with one lagging keyspace, so that sealed
+    // journals are still registered when the handles are dropped
+    let jrot = rng.chance(1, 2);
+    fjall::verif::set_journal_pos_scale(if jrot { 16_000 } else { 1 });
+    let nks = if jrot { rng.range(2, 3) } else { rng.range(1, 3) };
     let mut kss = Vec::new();
     for i in 0..nks {
-        let mt = *rng.pick(&[1_024u64, 4_096, 64 * 1_024 * 1_024]);
+        let mt = if jrot {
+            if i == 0 {
+                64 * 1_024 * 1_024
+            } else {
+                1_024
+            }
+        } else {
+            *rng.pick(&[1_024u64, 4_096, 64 * 1_024 * 1_024])
+        };
         let ks = inner
             .keyspace(&format!("k{i}"), || KeyspaceCreateOptions::default().max_memtable_size(mt))
             .map_err(|e| Deviation::new("unexpected-error:keyspace", format!("{e:?}")))?;
         kss.push(ks);
     }
-    for i in 0..rng.range(0, 200) {
+    let nwrites = if jrot { rng.range(150, 400) } else { rng.range(0, 200) };
+    for i in 0..nwrites {
         let ks = rng.pick(&kss);
         ks.insert(format!("key{:04}", rng.below(100)), vec![b'x'; rng.range(1, 400) as usize])
             .map_err(|e| Deviation::new("unexpected-error:write", format!("{e:?}")))?;
@@ -230,6 +243,10 @@ fn lifecycle_case(dir: &Path, rng: &mut Rng, stats: &mut Counts) -> R<String> {
     let only_weak = |h: &Vec<Held>| h.iter().all(|x| matches!(x, Held::Snapshot(_)));
     // make the database idle before probing (the digest must not change under our feet)
     wait_quiet(&inner);
+    if inner.journal_count() > 1 {
+        stats.inc("lifecycle.sealed_journals_at_drop");
+    }
+    desc.push_str(&format!(" journals={}", inner.journal_count()));
     drop(inner);
     let kss_paths: Vec<std::path::PathBuf> = kss.iter().map(|k| k.path().to_path_buf()).collect();
     let _ = kss_paths;
@@ -324,6 +341,7 @@ fn lifecycle_case(dir: &Path, rng: &mut Rng, stats: &mut Counts) -> R<String> {
         ));
     }
     stats.inc("reopen_after_drop_ok");
+    fjall::verif::set_journal_pos_scale(1);
     Ok(desc)
 }
 
